@@ -490,11 +490,12 @@ def _run(ctx, base):
     } for params in scenario_params(ctx.tier)]
     # two threads meet in the service registry / the adoption of services: source-line and
     # loop-iteration granularity for a few valid configurations
-    specs += H.line_variants(
-        specs, lambda p: p["end"] == "sigint" and p["format"] == "yaml"
-        and p["shape"] == ("svc", "decosvc", "pool") and p["forms"] == ("tag", "type")
-        and (not ctx.quick or (p["flavour"] == "asyncio" and not p.get("logging"))),
-        budget=6000)
+    for line_spec in H.line_variants(
+            specs, lambda p: p["end"] == "sigint" and p["format"] == "yaml"
+            and p["shape"] == ("svc", "decosvc", "pool") and p["forms"] == ("tag", "type")
+            and (not ctx.quick or (p["flavour"] == "asyncio" and not p.get("logging"))),
+            budget=6000):
+        specs += H.split(line_spec, 8)
     items = [("process", params) for params in process_params(ctx.tier)]
     items += [("cosched", spec) for spec in specs]
     ctx.pmap(shard, items, cost=lambda item: 1 if item[0] == "process" else 0)
